@@ -6,13 +6,17 @@ they use. Shapes requested by the caller are `Int`s (they may be negative or zer
 namespace Gonnx
 variable {α : Type}
 
-/-- gorgonia `Reshape(dims...)` on a clone: a negative dimension panics, a different element count
-is an error, otherwise only the header changes — the data list is untouched. -/
+def iprod : List Int → Int
+  | [] => 1
+  | d :: s => d * iprod s
+
+/-- gorgonia `Reshape(dims...)` on a clone: the (signed) product of the requested dimensions is
+compared with the element count first (error); then a negative dimension panics in `setShape`;
+otherwise only the header changes — the data list is untouched. -/
 def gReshape (t : Tensor α) (s : List Int) : Res (Tensor α) :=
-  if s.any (· < 0) then .error .panic
-  else
-    let s' := s.map Int.toNat
-    if prod s' = prod t.shape then .ok { t with shape := s' } else .error .shape
+  if iprod s ≠ (prod t.shape : Int) then .error .shape
+  else if s.any (· < 0) then .error .panic
+  else .ok { t with shape := s.map Int.toNat }
 
 /-- first loop of `processShape`: a 0 entry copies the input dimension at the same position -/
 def copyZeros (cur : List Nat) : Nat → List Int → Res (List Int)
@@ -57,7 +61,7 @@ def processShape (newShape : List Int) (cur : List Nat) : Res (List Int) :=
 /-- `Reshape.Apply`. `shapeT` is the second input (an int64 tensor): `Data().([]int64)` panics when
 it is a scalar tensor. -/
 def reshapeOp (t : Tensor α) (shapeT : Tensor Int) : Res (Tensor α) :=
-  if shapeT.shape = [] then .error .panic
+  if shapeT.shape = [] ∨ prod shapeT.shape = 0 then .error .panic   -- `Data()` of a scalar is not a slice; of an empty tensor it panics
   else match processShape shapeT.data t.shape with
     | .error e => .error e
     | .ok s => gReshape t s
@@ -84,7 +88,8 @@ def squeezeOp (t : Tensor α) (axes : Option (Tensor Int)) : Res (Tensor α) :=
     let dims := (t.shape.zipIdx.filter fun (d, _) => d = 1).map fun (_, i) => (i : Int)
     gReshape t ((squeezeShape t.shape dims).map (fun (d : Nat) => (d : Int)))
   | some a =>
-    if a.shape = [] then .error .cast
+    if prod a.shape = 0 then .error .panic          -- gorgonia's `Data()` panics on an empty tensor
+    else if a.shape = [] then .error .cast
     else
       let dims := a.data.map fun v => if v < 0 then n + v else v
       gReshape t ((squeezeShape t.shape dims).map (fun (d : Nat) => (d : Int)))
@@ -115,7 +120,8 @@ def sortInts (l : List Int) : List Int := l.foldr insertSorted []
 
 /-- `Unsqueeze.Apply` -/
 def unsqueezeOp (t : Tensor α) (axesT : Tensor Int) : Res (Tensor α) :=
-  if axesT.shape = [] then .error .cast
+  if prod axesT.shape = 0 then .error .panic
+  else if axesT.shape = [] then .error .cast
   else
     let axes := axesT.data
     let outRank : Int := t.shape.length + axes.length
@@ -127,10 +133,8 @@ def unsqueezeOp (t : Tensor α) (axesT : Tensor Int) : Res (Tensor α) :=
         let s := insertOnes t.shape (axes.map Int.toNat) outRank.toNat 0
         gReshape t (s.map (fun (d : Nat) => (d : Int)))
 
-/-- `Shape.Apply`: the dimensions as a 1-D int64 tensor. `tensor.New(WithShape(0), …)` for a scalar
-input panics inside gorgonia. -/
+/-- `Shape.Apply`: the dimensions as a 1-D int64 tensor (an empty one for a scalar input). -/
 def shapeOp (t : Tensor α) : Res (Tensor Int) :=
-  if t.shape = [] then .error .panic
-  else .ok ⟨[t.shape.length], t.shape.map (fun (d : Nat) => (d : Int))⟩
+  .ok ⟨[t.shape.length], t.shape.map (fun (d : Nat) => (d : Int))⟩
 
 end Gonnx
